@@ -274,6 +274,7 @@ func init() {
 
 		// 4. every accusation carrier enters through the three handlers: closed caller set
 		checkClaimSources(c, "C02")
+		checkMerge(c, "C02")
 
 		// 5. local announcements take a fresh incarnation
 		rule5 := "every local self-announcement (bootstrap alive claim) takes its incarnation from the advancing counter and is marked as bootstrap"
